@@ -604,11 +604,35 @@ def run(ctx):
     if not exe:
         return
     explore(ctx, exe, drv)
+    keep = dict(ctx.cov)
+    # the writers through the real HAL and the real platform layer with the system calls interposed (the harness of C14 / C16):
+    # (a) files beyond 4 GiB — section offsets are 64-bit quantities; (b) life cycles without faults, incl. close while running,
+    # restart and two acquisitions on one device: the composite tiff-json device drives its inner writer through another path than
+    # the HAL does, and a writer that finalises a file twice shows as a write to, or a close of, a descriptor it no longer owns
+    from . import storage_io as S
+    sexe, sdrv = S.build(ctx)
+    if sexe:
+        S.large_file_runs(ctx, sexe, ("new tiff\nset p:bigt -\nstart\nbig 268435456 17\nstop\nclose\n",
+                                       "new sxs\nset f:bigs -\nstart\nbig 1610612736 3\nbig 268435456 2\nstop\nclose\n",
+                                       "new tiff\nset f:bigu {\"a\":1}\nstart\nbig 4294967304 1\nbig 1048576 3\nstop\nclose\n"), "tiff writer")
+        stats = S.new_stats()
+        cases = []
+        for kind in ("tiff", "sxs"):
+            cases += [h.case(tag=name) for name, h in S.base_histories(kind)]
+            cases += [S.random_history(ctx.rng, kind, max_cycles=4, max_appends=4).case(tag="random") for _ in range(300 if ctx.tier == "thorough" else 40)]
+        problems = S.run_batch(sexe, sdrv, cases, stats)
+        S.report(ctx, sexe, sdrv, cases, problems, {"unowned-pwrite", "unowned-close", "unowned-flock", "descriptor-leak"}, crash_is_mine=True)
+        keep["life_cycles_through_the_hal"] = {"cases": len(cases), "agree_with_storage_model": stats.get("validated"),
+                                               "large_file_runs": ctx.cov.get("large_file_runs")}
+    ctx.cov.update(keep)
 
 
 def replay(ctx, path):
     obj = json.load(open(path))
     rp = obj.get("replay") or {}
+    if rp.get("harness") == "h_storage_io":
+        from . import storage_io as S
+        return S.replay_file(ctx, path, {"unowned-pwrite", "unowned-close", "unowned-flock", "descriptor-leak"}, True)
     script = rp.get("script")
     if not script:
         print("replay file carries no script (proof/correspondence breakage only): %s" % json.dumps(obj)[:400])
